@@ -13,21 +13,21 @@ import (
 
 // Spec describes a property check built from symgo harness families.
 type Spec struct {
-	ID      string
-	Level   string // evidence level
-	Tier    string
-	Harness Harness
-	Harnesses []Harness // all harnesses to inject (defaults to {Harness}); a Config selects its own through Config.Harness
-	LoadPkgs []string
-	Opts    RunOpts
-	Configs []Config
+	ID          string
+	Level       string // evidence level
+	Tier        string
+	Harness     Harness
+	Harnesses   []Harness // all harnesses to inject (defaults to {Harness}); a Config selects its own through Config.Harness
+	LoadPkgs    []string
+	Opts        RunOpts
+	Configs     []Config
 	Assumptions []string
-	Bounds  map[string]interface{}
-	Rule    string
+	Bounds      map[string]interface{}
+	Rule        string
 	// ViolationKey builds the string known findings are matched against.
 	ViolationKey func(o *Outcome, ob *OblResult) string
 	// Extra lets a check add coverage keys.
-	Extra func(cov map[string]interface{}, outs []Outcome)
+	Extra      func(cov map[string]interface{}, outs []Outcome)
 	MaxReplays int
 	// NoReplayKinds: obligation kinds that cannot be replayed natively (reported as ENCODING-MISMATCH if violated without replay)
 	Program *symgo.Program
@@ -53,6 +53,21 @@ func Sample(cfgs []Config, n, seed int) []Config {
 		return cfgs
 	}
 	return shuffled(cfgs, seed)[:n]
+}
+
+// FilterConfigs keeps the configurations whose name contains $BMV_FILTER (debugging aid).
+func FilterConfigs(cfgs []Config) []Config {
+	f := os.Getenv("BMV_FILTER")
+	if f == "" {
+		return cfgs
+	}
+	var r []Config
+	for _, c := range cfgs {
+		if strings.Contains(c.Name, f) {
+			r = append(r, c)
+		}
+	}
+	return r
 }
 
 // Execute runs the spec and returns the process exit code.
@@ -124,8 +139,7 @@ func Finish(sp *Spec, outs []Outcome, t0 time.Time, loadS float64) int {
 					nReach++
 					reached = true
 				} else {
-					nUnreach++
-					machinery = append(machinery, fmt.Sprintf("VACUOUS %s: marker %s %s", o.Config.Name, ob.Tag, ob.Result))
+					nUnreach++ // legitimately unreachable branches exist; a configuration needs one reachable marker (below)
 				}
 				continue
 			}
@@ -211,30 +225,30 @@ func Finish(sp *Spec, outs []Outcome, t0 time.Time, loadS float64) int {
 		}
 	}
 	cov := map[string]interface{}{
-		"functions_encoded":   keys(funcs),
-		"natives_and_models":  keys(natives),
-		"stubs":               keys(stubs),
-		"bounds":              sp.Bounds,
-		"configurations":      len(outs),
-		"obligations":         nObl,
-		"discharged":          nDis,
-		"inconclusive":        nInc,
-		"queries":             nQueries,
-		"solver_s":            round3(solverS),
-		"load_s":              round3(loadS),
-		"vacuity_witnesses":   nReach,
-		"unreachable_markers": nUnreach,
-		"evaluations":         nQueries,
-		"distinct_nontrivial": len(nontrivial),
-		"rule":                sp.Rule,
-		"samples":             samples,
-		"checker_cmd":         "z3 -in (4.8.12), one process per worker, check-sat-assuming per obligation",
-		"trusted_base":        []string{"z3 4.8.12", "golang.org/x/tools/go/ssa v0.29.0", "/verif/smt", "/verif/symgo (own symbolic executor)", "Go type checker"},
+		"functions_encoded":            keys(funcs),
+		"natives_and_models":           keys(natives),
+		"stubs":                        keys(stubs),
+		"bounds":                       sp.Bounds,
+		"configurations":               len(outs),
+		"obligations":                  nObl,
+		"discharged":                   nDis,
+		"inconclusive":                 nInc,
+		"queries":                      nQueries,
+		"solver_s":                     round3(solverS),
+		"load_s":                       round3(loadS),
+		"vacuity_witnesses":            nReach,
+		"unreachable_markers":          nUnreach,
+		"evaluations":                  nQueries,
+		"distinct_nontrivial":          len(nontrivial),
+		"rule":                         sp.Rule,
+		"samples":                      samples,
+		"checker_cmd":                  "z3 -in (4.8.12), one process per worker, check-sat-assuming per obligation",
+		"trusted_base":                 []string{"z3 4.8.12", "golang.org/x/tools/go/ssa v0.29.0", "/verif/smt", "/verif/symgo (own symbolic executor)", "Go type checker"},
 		"uf_abstracted_configurations": abstracted,
-		"opaque_format_strings": opaque,
-		"known_findings_seen": knownSeen,
-		"machinery_problems":  machinery,
-		"exhaustive":          false,
+		"opaque_format_strings":        opaque,
+		"known_findings_seen":          knownSeen,
+		"machinery_problems":           machinery,
+		"exhaustive":                   false,
 	}
 	if sp.Extra != nil {
 		sp.Extra(cov, outs)
